@@ -85,7 +85,13 @@ class UnitResult:
 
 
 def unit_list():
-    return sorted(d for d in os.listdir(UNITS) if os.path.exists(os.path.join(UNITS, d, 'unit.rs')))
+    """units that take part in checks: those with unit.json {"enabled": true} (a unit under construction
+    can still be run with `vx.py unit <name>`)."""
+    out = []
+    for d in sorted(os.listdir(UNITS)):
+        if os.path.exists(os.path.join(UNITS, d, 'unit.rs')) and unit_cfg(d).get('enabled'):
+            out.append(d)
+    return out
 
 
 def unit_props(name):
